@@ -703,7 +703,9 @@ func sessionTier(r *vh.Rng, out *vh.Out, tier string) map[string]interface{} {
 		go func(i int) {
 			defer wg.Done()
 			defer func() { <-sem }()
+			journalStart(1000000+i, jobs[i].sc.String())
 			res[i] = execSess(jobs[i].sc.String())
+			journalDone(1000000+i, res[i])
 		}(i)
 	}
 	wg.Wait()
